@@ -204,7 +204,7 @@ func cycleMustFail(L *Layout) bool {
 
 // addRemote turns one extends.file / include path into a sim:// reference.
 func addRemote(g *G, L *Layout) {
-	re := regexp.MustCompile(`(?m)^(\s*(?:file|path): |\s*- )"(\./[^"]*\.yaml)"$`)
+	re := regexp.MustCompile(`(?m)^(\s*"?(?:file|path)"?: |\s*- )"(\.\.?/[^"]*\.yaml)"$`)
 	main := L.Main[0]
 	// sometimes the remote reference sits in an extends base file (nested hop) rather than in the main file
 	var bases []string
@@ -214,7 +214,7 @@ func addRemote(g *G, L *Layout) {
 		}
 	}
 	sort.Strings(bases)
-	if len(bases) > 0 && g.chance("remote-nested", 1, 3) {
+	if len(bases) > 0 && g.chance("remote-nested", 1, 2) {
 		main = bases[g.n("remote-base", len(bases))]
 	}
 	txt := L.Files[main]
